@@ -371,8 +371,35 @@ def rule_commit_on_success(ctx, crate, rule="R-DRAW-COMMIT-ON-SUCCESS"):
     for name in sorted(em):
         b = crate.bodies[name]
         vl_params = [i for i in range(1, b.arg_count + 1) if b.locals[i]["ty"].startswith("&mut") and b.locals[i].get("head") == "draw_target::VisualLines"]
+        # ... or the count reached through a pattern binding of the Drawable's `last_line_count` (an emitting helper inlined into
+        # Drawable::clear / Drawable::draw)
+        for i_, j_, s_ in b.assigns():
+            l_ = s_["lhs"]["l"]
+            if not s_["lhs"]["p"] and b.locals[l_]["ty"].startswith("&mut") and b.locals[l_].get("head") == "draw_target::VisualLines" and l_ not in vl_params:
+                src_ = s_["rv"].get("place") or (s_["rv"].get("op") or {}).get("place") or {}
+                if any(isinstance(e, dict) and e.get("n") == "last_line_count" for e in src_.get("p", [])):
+                    vl_params.append(l_)
         if not vl_params:
             continue
+        # reborrows and copies of those references (`_8 = &mut *_4`, `_9 = move _8`)
+        alias = set(vl_params)
+        for _ in range(6):
+            grew = False
+            for i_, j_, s_ in b.assigns():
+                l_ = s_["lhs"]["l"]
+                if s_["lhs"]["p"] or l_ in alias or not b.locals[l_]["ty"].startswith("&mut") or b.locals[l_].get("head") != "draw_target::VisualLines":
+                    continue
+                rv_ = s_["rv"]
+                src_l = None
+                if rv_["k"] == "ref" and rv_["place"]["p"] == ["*"]:
+                    src_l = rv_["place"]["l"]
+                elif rv_["k"] == "use" and rv_["op"].get("k") in ("move", "copy") and not rv_["op"]["place"]["p"]:
+                    src_l = rv_["op"]["place"]["l"]
+                if src_l in alias:
+                    alias.add(l_)
+                    grew = True
+            if not grew:
+                break
         flushes = [c for c in b.calls() if c.callee.get("trait") == K.TERMLIKE and K.meth(c.generic) == "flush"]
         if not flushes:
             ctx.bad(rule, "no-flush", b.name, K.fn_loc(b), "emitter never calls TermLike::flush", cfg)
@@ -396,7 +423,7 @@ def rule_commit_on_success(ctx, crate, rule="R-DRAW-COMMIT-ON-SUCCESS"):
         stores = []
         refs = b.ref_origins()
         for i, j, s in b.assigns():
-            if s["lhs"]["l"] in vl_params and "*" in s["lhs"]["p"]:
+            if s["lhs"]["l"] in alias and "*" in s["lhs"]["p"]:
                 stores.append((i, s, "direct store"))
         for c in b.calls():
             for a in c.args:
@@ -405,7 +432,7 @@ def rule_commit_on_success(ctx, crate, rule="R-DRAW-COMMIT-ON-SUCCESS"):
                     continue
                 tgts = refs.get(l, [])
                 if b.locals[l]["ty"].startswith("&mut") and b.locals[l].get("head") == "draw_target::VisualLines":
-                    if l in vl_params or any(t[0] in vl_params for t in tgts):
+                    if l in alias or any(t[0] in vl_params for t in tgts):
                         stores.append((c.bb, None, "passed &mut to %s" % c.path))
         for bb, s, how in stores:
             n += 1
